@@ -537,6 +537,8 @@ def gen_lean(f):
             "theorem holds_extended : type_of% @C11_x_partial := @C11_x_partial\n#print axioms holds_extended\n"
             "theorem holds_refinement : type_of% @C11_full_x := @C11_full_x\n#print axioms holds_refinement\n"
             "theorem holds_float_conversion : type_of% @delay_float_steps := @delay_float_steps\n#print axioms holds_float_conversion\n"
+            "theorem holds_float_countdown : type_of% @floatKeep_exact := @floatKeep_exact\n#print axioms holds_float_countdown\n"
+            "theorem float_budget_doubles : type_of% stepBudget_double_arith := stepBudget_double_arith\n#print axioms float_budget_doubles\n"
             "end Bptk.C11.Gen\n")
 
 
@@ -861,9 +863,10 @@ def run(chk):
         "source by this check's correspondence run and by one probe per repaired mechanism",
         "delay -> steps: the model counts delays in steps; ceil(delay/dt) (Lean stepsOf, proved least k with k*dt >= delay and equal to "
         "the ceiling in Q) is compared with the real handle_delayed_event countdown on a lattice of decimal (delay, dt), on random "
-        "decimals with up to 6 digits and quotients up to 10^6, and in every correspondence case; `delay_float_steps` proves the float "
-        "expression ceil(round(delay/dt, 9)) exact under the IEEE error bounds stated as hypotheses (division within relative 2^-51, "
-        "round(x, 9) correctly rounded, integers exact) - those bounds are trusted, not derived from a float formalisation",
+        "decimals with up to 6 digits and quotients up to 10^6, and in every correspondence case; `floatKeep_exact` (wave 6) proves the float "
+        "countdown ceil(round(delay/dt, 9)) / (k-1)*dt exact over C05's float adversary Fl (relative error u, monotone, idempotent) and "
+        "C05's roundDec within StepBudget (doubles: quotient <= 10^6, denominator of the exact quotient <= 10^9, integers up to 10^6+1 "
+        "representable); that IEEE doubles are such an Fl with u = 2^-53 is the trusted part",
         "decimal reading of Python floats (the harness writes delays/dt as short decimal strings and passes them as fractions to the model)",
         "random_events: the random indices are an oracle in the model; the harness seeds Python's `random`, reads the drawn receivers "
         "back and hands their indices to the model (reference check: every receiver is a live agent of the type, min(num, count) many)",
